@@ -1,5 +1,5 @@
 (* C01 - Satisfies returns the Boolean truth of the expression under the allowed list. *)
-From Spdx Require Import Props.Shipped Spec.Grammar Spec.Eval Proofs.ParseGrammar Proofs.Sat Proofs.Laws Proofs.ApiFacts.
+From Spdx Require Import Props.Shipped Spec.Grammar Spec.Eval Model.Expand Proofs.ParseGrammar Proofs.Sat Proofs.Laws Proofs.ApiFacts Proofs.ExpandProof.
 Local Open Scope list_scope.
 
 (* precedence and grouping are those of the grammar: AND binds tighter than OR, parentheses group *)
@@ -25,6 +25,13 @@ Theorem C01_alternatives e t A : parse T0 e = Ok t -> A <> [] -> Forall (entry_o
    exists alt, In alt (dnf t) /\ forall x, In x alt -> existsb (compatible T0 x) (map (pn T0) A) = true).
 Proof. exact (sat_alternatives T0 HT0 Hnr0 e t A). Qed.
 
+(* the OR-of-ANDs expansion kept in the package (no longer used by the exported functions; tied through the guarded
+   hook) denotes the same Boolean function and has exactly the leaves of the tree *)
+Theorem C01_expand_denotes_the_function v t : existsb (forallb v) (expand t) = eval v t.
+Proof. exact (expand_is_eval v t). Qed.
+Theorem C01_expand_keeps_every_leaf t x : In x (concat (expand t)) <-> In x (tree_leaves t).
+Proof. exact (expand_leaves t x). Qed.
+
 (* non-vacuity: a concrete valid expression and list meet the hypotheses, and the value is computed *)
 Example C01_example :
   parse T0 (s2l "MIT AND (Apache-2.0 OR GPL-2.0-only) OR ISC") =
@@ -35,5 +42,5 @@ Example C01_example :
 Proof. vm_compute. repeat split; reflexivity. Qed.
 
 (* axioms the property theorems of this file depend on (one traversal for all of them) *)
-Definition C01_theorems := (@C01_parser_is_grammar, @C01_general, @C01, @C01_alternatives).
+Definition C01_theorems := (@C01_parser_is_grammar, @C01_general, @C01, @C01_alternatives, @C01_expand_denotes_the_function, @C01_expand_keeps_every_leaf).
 Redirect "assumptions/C01" Print Assumptions C01_theorems.
